@@ -54,6 +54,7 @@ def render(h, judge=True):
             elif op == "O":
                 level = max(0, level - 1)
             elif level == 0 and op in ("Q",):
+                out.append("JQ")                      # the equality literal just returned, judged at any size
                 out.append("J %d" % JUDGE_VARS)
         if level == 0 and not out[-1].startswith("J"):
             out.append("J %d" % JUDGE_VARS)
@@ -167,6 +168,8 @@ class Campaign:
             hists.append(satenc_ov_gen.gen_history(rng, small=True))
         for _ in range(n_big):
             hists.append(satenc_ov_gen.gen_history(rng, small=False))
+        for _ in range(80 if not ctx.thorough else 800):
+            hists.append(satenc_ov_gen.gen_wide_history(rng))
         lines, spans = [], []
         for h in hists:
             ls = render(h)
@@ -184,7 +187,7 @@ class Campaign:
             ctx.violation("corr:ov:oracle-aborted", {"kind": "oracle-aborted", "rc": r2.rc, "stderr": r2.err[-800:]}, no_input=True)
             return
         dist = {}
-        ops = judged = skipped = weak = dead = 0
+        ops = judged = skipped = weak = dead = req_judged = 0
         ok_hist = 0
         nontrivial = set()
         mism, jfail = [], []
@@ -201,7 +204,9 @@ class Campaign:
                     break
             ops += sum(1 for ln in hl[:cut] if not ln.startswith("J"))
             for k in range(cut):
-                if hl[k].startswith("J"):
+                if hl[k] == "JQ" and il[k].startswith("J ok"):
+                    req_judged += 1
+                elif hl[k].startswith("J"):
                     if il[k].startswith("J FAIL"):
                         jfail.append((hi, il[k]))
                         break
@@ -253,6 +258,7 @@ class Campaign:
         cov["model_vs_impl_mismatching_histories"] = len(mism)
         cov["histories_cut_at_conflict_or_failed_assert"] = dead
         cov["judged_by_truth_table"] = judged
+        cov["equalities_judged_right_after_the_request"] = req_judged
         cov["judge_skipped_more_than_%d_vars" % JUDGE_VARS] = skipped
         cov["judge_failures"] = len(jfail)
         cov["conservativity_notes_count"] = weak
